@@ -841,11 +841,15 @@ theorem checkInterest_ok_int (i : InterestIn) (H : Bytes → Bytes) (fn : Name) 
     rw [hfn']
     simp [hap, hd', digestComp]
 
-theorem readInterest_roundtrip (R : ReaderSpecs) (E : EncSpecs) (S : SigInfoParseSpec)
+/-- `parsePacket` on the encoded Interest: the Interest element parses to a state that passes
+    `checkInterest`, carries the expected value and (when signed) the covered bytes -/
+theorem parsePacket_interest_int (R : ReaderSpecs) (E : EncSpecs) (S : SigInfoParseSpec)
     (i : InterestIn) (sign H : Bytes → Bytes) (e : Encoded) (fn : Name) (r : Rd) :
     i.Valid → NoTrailingDigest i → (∀ x, (H x).length = 32) → makeInterest i sign H = .ok (e, fn) →
     At r e.wire.flatten 0 →
-    ∃ cov, readInterest H r = .ok (interestExpect i fn e.sigVal, cov) ∧ (i.est > 0 → cov = interestCovered i) := by
+    ∃ fs : InterestSt, parsePacket r = .ok { interest := some fs, ictx := fs }
+      ∧ checkInterest H { fs with digestCovered := fs.digestCovered } = true
+      ∧ fs.v = interestExpect i fn e.sigVal ∧ (i.est > 0 → fs.sigCovered = interestCovered i) := by
   intro hv hnt hH hm hat
   obtain ⟨hfn, hflat, _, _⟩ := E.makeInterest_flatten i sign H e fn hv hH hm
   obtain ⟨hr, hL⟩ := interestReady_of_int E i sign H e fn hv hH hm
@@ -873,9 +877,29 @@ theorem readInterest_roundtrip (R : ReaderSpecs) (E : EncSpecs) (S : SigInfoPars
   have hpp : parsePacket r = .ok { interest := some fs, ictx := fs } := by
     simp only [parsePacket, hfuel, e2]
     simp [packetBody, e3, e4, hend]
+  exact ⟨fs, hpp, hchk, hv4, hc4⟩
+
+theorem readInterest_roundtrip (R : ReaderSpecs) (E : EncSpecs) (S : SigInfoParseSpec)
+    (i : InterestIn) (sign H : Bytes → Bytes) (e : Encoded) (fn : Name) (r : Rd) :
+    i.Valid → NoTrailingDigest i → (∀ x, (H x).length = 32) → makeInterest i sign H = .ok (e, fn) →
+    At r e.wire.flatten 0 →
+    ∃ cov, readInterest H r = .ok (interestExpect i fn e.sigVal, cov) ∧ (i.est > 0 → cov = interestCovered i) := by
+  intro hv hnt hH hm hat
+  obtain ⟨fs, hpp, hchk, hv4, hc4⟩ := parsePacket_interest_int R E S i sign H e fn r hv hnt hH hm hat
   refine ⟨fs.sigCovered, ?_, hc4⟩
-  have hchk' : checkInterest H { fs with digestCovered := fs.digestCovered } = true := hchk
   simp only [readInterest, hpp, Res.bind_ok]
-  rw [if_pos hchk', hv4]; rfl
+  rw [if_pos hchk, hv4]; rfl
+
+/-- the `ReadPacket` variant: no Data element, so the Interest branch is taken -/
+theorem readPacket_interest_roundtrip (R : ReaderSpecs) (E : EncSpecs) (S : SigInfoParseSpec)
+    (i : InterestIn) (sign H : Bytes → Bytes) (e : Encoded) (fn : Name) (r : Rd) :
+    i.Valid → NoTrailingDigest i → (∀ x, (H x).length = 32) → makeInterest i sign H = .ok (e, fn) →
+    At r e.wire.flatten 0 →
+    ∃ cov, readPacket H r = .ok (.interest (interestExpect i fn e.sigVal) cov) ∧ (i.est > 0 → cov = interestCovered i) := by
+  intro hv hnt hH hm hat
+  obtain ⟨fs, hpp, hchk, hv4, hc4⟩ := parsePacket_interest_int R E S i sign H e fn r hv hnt hH hm hat
+  refine ⟨fs.sigCovered, ?_, hc4⟩
+  simp only [readPacket, hpp, Res.bind_ok]
+  rw [if_pos hchk, hv4]; rfl
 
 end Ndn.C03
